@@ -145,3 +145,15 @@ package ipam
 //@   loop 1 invariant blkWFq(b) && len(blkA(b)) == old(len(blkA(b)))
 //@   loop 2 invariant blkWFq(b) && len(blkA(b)) == old(len(blkA(b)))
 //@   loop 3 invariant blkWFq(b) && len(blkA(b)) == old(len(blkA(b)))
+
+//@ func (*allocationBlock).releaseByHandle
+//@   property C19
+//@   option safety assume
+//@   option absindex
+//@   option stable []int, []*int, (*allocationBlock).AllocationBlock, (*model.AllocationBlock).Allocations, (*model.AllocationBlock).Unallocated
+//@   requires blkWF(b)
+//@   ensures b.AllocationBlock != nil
+//@   ensures forall i int :: 0 <= i && i < len(blkU(b)) ==> 0 <= blkU(b)[i] && blkU(b)[i] < len(blkA(b))
+//@   ensures forall i int :: 0 <= i && i < len(blkU(b)) ==> blkA(b)[blkU(b)[i]] == nil
+//@   ensures forall i int, j int :: 0 <= i && i < j && j < len(blkU(b)) ==> blkU(b)[i] != blkU(b)[j]
+//@   loop 1 invariant blkWFq(b)
